@@ -47,6 +47,8 @@ struct SWorld {
   unifex::inplace_stop_source stop;
   int stop_mode = 0;  // 0 none, 1 before start, 2 stopper thread, 3 from inside element k
   int stop_yields = 0, stop_elem = 0;
+  int throw_elem = -1;     // the reducer throws when it is handed this element (param rthrow=1)
+  bool reducer_threw = false;
   int trigger_open_after = 0;
   volatile int all_done = 0;
   Gate* flat[2 * (kMaxElems + 3)];
@@ -105,7 +107,13 @@ void note_elem(SWorld* w, long v) {
 
 template <class Stream, class Sched>
 void consume(SWorld* w, Stream&& stream, Sched sched) {
-  auto snd = unifex::reduce_stream((Stream &&) stream, 0L, [w](long acc, long v) noexcept { note_elem(w, v); return acc + v; });
+  auto snd = unifex::reduce_stream((Stream &&) stream, 0L, [w](long acc, long v) {
+    bool th;
+    { usim::np_scope np; th = w->throw_elem >= 0 && w->nreceived == w->throw_elem; if (th) w->reducer_threw = true; }
+    if (th) { usim_probe("the reducer threw"); throw gate_error{-4242}; }
+    note_elem(w, v);
+    return acc + v;
+  });
   started_op<Sched, decltype(snd)> op;
   if (w->stop_mode == 1) w->rec.request_stop();
   std::thread stopper([w] {
@@ -187,6 +195,7 @@ void body_stream(void*) {
   w->stop_mode = sm < 4 ? 0 : sm < 5 ? 1 : sm < 7 ? 2 : 3;
   w->stop_yields = draw_small(40);
   w->stop_elem = draw(4);
+  if (usim_param_int("rthrow", 0) && draw(3) == 0) w->throw_elem = draw(4);
   w->trigger_open_after = uses_trigger ? draw(8) : 0;
   w->rec.what = "reduce_stream";
   w->rec.oracle_double = "c01.double-signal";
@@ -218,15 +227,17 @@ void body_stream(void*) {
     KIT_CHECK(w->nreceived <= nm, "c13.sequence", "%d elements delivered but the adapted source only has %d", w->nreceived, nm);
     for (int i = 0; i < w->nreceived; ++i)
       KIT_CHECK(w->received[i] == M[i], "c13.sequence", "element %d is %ld, the adaptor's definition prescribes %ld (duplicate, invented or reordered element)", i, w->received[i], M[i]);
+    if (w->reducer_threw) may_end_early = true;
     if (!may_end_early) KIT_CHECK(w->nreceived == nm, "c13.sequence", "only %d of %d elements delivered although nothing stopped the stream", w->nreceived, nm);
     // the result is the fold over precisely the delivered elements; an error only if the source failed
     long sum = 0;
     for (int i = 0; i < w->nreceived; ++i) sum += w->received[i];
+    if (w->reducer_threw) KIT_CHECK(r.channel == CH_ERROR, "c13.fold", "the reducer threw but reduce_stream completed with %s", ch_name(r.channel));
     if (r.channel == CH_VALUE) {
       KIT_CHECK(r.value == sum, "c13.fold", "reduce_stream result %ld is not the fold (%ld) of the %d delivered elements", r.value, sum, w->nreceived);
       if (!may_end_early) KIT_CHECK(s.error_at < 0 || s.error_at > s.len, "c13.sequence", "source failed at %d but the reduction completed with value", s.error_at);
     } else if (r.channel == CH_ERROR) {
-      KIT_CHECK(s.error_at >= 0, "c13.sequence", "reduction completed with an error although the source never failed");
+      KIT_CHECK(s.error_at >= 0 || w->reducer_threw, "c13.sequence", "reduction completed with an error although neither the source nor the reducer failed");
     } else {
       KIT_CHECK(false, "c13.sequence", "reduce_stream completed with done (it declares sends_done=false)");
     }
